@@ -83,6 +83,34 @@ func evb(k, a, b string) w.Event         { return w.Event{K: k, A: a, B: b} }
 
 // runWorld explores the scenarios with the monitors; stops at the first scenario with an unlisted violation.
 func runWorld(t *testing.T, run *h.Run, scs []scOpt, mons []func(*w.MonCtx), maxStates int, visit ...func(sc *w.Scenario, s *w.State, depth int)) {
+	// replay mode: re-execute one recorded trace sequentially with the monitors, without the explorer
+	if rp := replayFile(); rp != nil {
+		var x struct {
+			Scenario string    `json:"scenario"`
+			Init     int       `json:"init"`
+			Events   []w.Event `json:"events"`
+		}
+		rp.decode(&x)
+		if len(x.Events) > 0 {
+			for _, o := range scs {
+				if o.name == x.Scenario {
+					o.mons = mons
+					sc := mkScenario(t, o)
+					final := w.ReplayPath(t, run, sc, x.Init, x.Events)
+					fmt.Println("replayed", len(x.Events), "events; final state:")
+					for _, l := range final.Describe() {
+						fmt.Println("  " + l)
+					}
+					run.Cov["evaluations"] = len(x.Events)
+					run.Count("states", int64(len(x.Events)))
+					run.Count("transitions", int64(len(x.Events)))
+					exit(run.Finish("replay of one recorded trace"))
+				}
+			}
+			fmt.Println("replay: scenario", x.Scenario, "is not part of this check")
+			exit(2)
+		}
+	}
 	for _, o := range scs {
 		o.mons = mons
 		sc := mkScenario(t, o)
@@ -96,11 +124,37 @@ func runWorld(t *testing.T, run *h.Run, scs []scOpt, mons []func(*w.MonCtx), max
 		ex.Explore()
 		fmt.Printf("  %-28s states=%-7d transitions=%-8d depth=%-3d capped=%v\n", sc.Name, ex.States, ex.Transitions, ex.Depth, ex.Capped)
 		run.Nontrivial("scenario:" + sc.Name)
+		confirmByReplay(t, run, sc)
 		if run.HasUnknownViolation() {
 			break
 		}
 	}
 	worldFinish(run)
+}
+
+// confirmByReplay re-executes the trace of every violation of this scenario three times from scratch; a violation
+// that does not reproduce with the same signature every time is a harness error (exit 2), never a verdict.
+func confirmByReplay(t *testing.T, run *h.Run, sc *w.Scenario) {
+	for _, v := range run.Violations() {
+		rep, ok := v.Replay.(map[string]interface{})
+		if !ok || rep["scenario"] != sc.Name {
+			continue
+		}
+		evs, ok := rep["events"].([]w.Event)
+		if !ok {
+			continue
+		}
+		init, _ := rep["init"].(int)
+		for i := 0; i < 3; i++ {
+			scratch := h.NewRun(run.Property, "model_checking")
+			w.ReplayPath(t, scratch, sc, init, evs)
+			if !scratch.Has(v.Signature) {
+				fmt.Printf("HARNESS ERROR: violation %q did not reproduce when its trace was replayed (attempt %d)\n", v.Signature, i+1)
+				exit(2)
+			}
+		}
+		run.Count("violations_confirmed_by_replay", 1)
+	}
 }
 
 // requireAntecedents fails the check itself (exit 2) when a key monitor never had a true antecedent.
